@@ -19,7 +19,17 @@ pub fn rand_outline(rng: &mut Rng) -> Outline {
     let mut y: Vec<isize> = (0..steps).map(|_| rng.range(1, 200) as isize).collect();
     x.sort_by(|a, b| b.cmp(a)); // non-increasing
     y.sort(); // non-decreasing
-    Outline::new(&x, &y).expect("outline")
+    // equal neighbouring steps are legal ("non-increasing" / "non-decreasing"): force some
+    if steps >= 2 && rng.chance(1, 4) {
+        let k = 1 + rng.usize(steps - 1);
+        if rng.bool() {
+            x[k] = x[k - 1];
+        } else {
+            y[k] = y[k - 1];
+        }
+    }
+    // built from the public fields, so that the generator does not depend on the constructor under test
+    Outline { x: x.iter().map(|v| PrimPitches::x(*v)).collect(), y: y.iter().map(|v| PrimPitches::y(*v)).collect() }
 }
 pub fn rand_cross(rng: &mut Rng) -> TrackCross {
     let l = rng.usize(5);
@@ -42,7 +52,9 @@ pub fn rand_placed_lib(rng: &mut Rng, max_cells: usize, with_abstracts: bool) ->
     let mut deps = Vec::new();
     for i in 0..n {
         let name = format!("{}{}", rng.pick(&["tcell", "Unit", "blk_", "Top"]), i);
-        let mut lay = Layout::new(name.clone(), rng.usize(5), rand_outline(rng));
+        // the layout view's own name may differ from the cell's
+        let lay_name = if rng.chance(1, 5) { format!("{}_lay", name) } else { name.clone() };
+        let mut lay = Layout::new(lay_name, rng.usize(5), rand_outline(rng));
         let mut d = Vec::new();
         if i > 0 {
             for k in 0..rng.usize(5) {
